@@ -142,15 +142,21 @@ def _process_chunk(chunk):
         o = mod.observe(case)
         t_impl += time.perf_counter() - t0
         assert len(r) == len(o), (case, r, o)
-        spans.append((len(reqs), len(r)))
+        x = mod.extra_requests(case) if hasattr(mod, "extra_requests") else []
+        spans.append((len(reqs), len(r), len(x)))
         reqs.extend(r)
+        reqs.extend(x)
         obs_all.append(o)
     outs = [canon_model_line(x) for x in run_model(reqs)]
-    res = {"cases": len(chunk), "observations": len(reqs), "disagreements": [], "n_disagree": 0,
+    res = {"cases": len(chunk), "observations": sum(ln for (_, ln, _) in spans), "disagreements": [], "n_disagree": 0,
            "violations": [], "n_viol": 0, "hist": {}, "model_errors": 0, "samples": [], "t_impl": t_impl,
-           "nontrivial": 0, "keys": [], "n_unlisted": 0, "by_finding": {}, "listed_samples": {}}
-    for case, (st, ln), o in zip(chunk, spans, obs_all):
+           "nontrivial": 0, "keys": [], "n_unlisted": 0, "by_finding": {}, "listed_samples": {}, "model_hist": {}}
+    for case, (st, ln, nx), o in zip(chunk, spans, obs_all):
         m = outs[st:st + ln]
+        if nx:
+            # model-only requests (coverage of the model's own case structure); never compared
+            for k, n in mod.model_stats(case, outs[st + ln:st + ln + nx]).items():
+                res["model_hist"][k] = res["model_hist"].get(k, 0) + n
         if any(x.startswith("(error") for x in m):
             res["model_errors"] += 1
         if m != o:
@@ -194,7 +200,7 @@ def run_correspondence(modname, tier, seed, extra_chunks=None, listed=()):
     mod = importlib.import_module(modname)
     total = {"cases": 0, "observations": 0, "disagreements": [], "n_disagree": 0, "violations": [],
              "n_viol": 0, "hist": {}, "model_errors": 0, "samples": [], "t_impl": 0.0, "nontrivial": 0,
-             "n_unlisted": 0, "by_finding": {}, "listed_samples": {}}
+             "n_unlisted": 0, "by_finding": {}, "listed_samples": {}, "model_hist": {}}
     t0 = time.time()
     seen = set()
 
@@ -211,6 +217,8 @@ def run_correspondence(modname, tier, seed, extra_chunks=None, listed=()):
             for k in ("cases", "observations", "n_disagree", "n_viol", "model_errors", "t_impl", "nontrivial",
                       "n_unlisted"):
                 total[k] += res[k]
+            for f, n in res["model_hist"].items():
+                total["model_hist"][f] = total["model_hist"].get(f, 0) + n
             for f, n in res["by_finding"].items():
                 total["by_finding"][f] = total["by_finding"].get(f, 0) + n
             for f, rec in res["listed_samples"].items():
